@@ -18,6 +18,10 @@ Static clauses decided (necessary conditions of C20):
  CHECK   after executing the UPDATE, `cursor.rowcount == 0` in an optimistic session throws OptimisticCheckError.
  ABORT   "the later session fails with an error and commits none of its changes": the module-level commit() flushes every database of the
          session (that is where OptimisticCheckError is raised) before it commits any (rules shared with C17-ABORT).
+ LOCKSET (round 8, shared with C35) the exemption `obj in cache.for_update` stands for "the object was locked for update"; the row lock ends
+         with the transaction, so every normal path through a SessionCache method that calls provider.commit empties the set -- whatever
+         `cache.modified` / `cache.in_transaction` are.  A set that survives an intermediate commit() lets a later UPDATE of the same session
+         go out without the optimistic WHERE criteria although another session may have changed the row in between: a lost update.
  OWNBITS the bit recorded for an attribute of object X is looked up in X's OWN bit table (X._bits_except_volatile_ -- per
          concrete class): attributes declared in a subclass have no bit in the base entity's table, so a mask computed from the
          entity a query iterates over silently drops them, and a value the session selected on is left out of the optimistic
@@ -135,6 +139,11 @@ def run(ctx):
     # ---------------------------------------------------------------- ABORT (shared with C17): a failed check commits nothing, in any database of the session
     from . import C17
     C17.global_commit_rules(ctx, P='C20-ABORT')
+    C17.abort_rules(ctx, P='C20-ABORT')
+    # ---------------------------------------------------------------- LOCKSET (shared with C35): the exemption `obj in cache.for_update` is the clause
+    # 'unless the object was locked for update'; the lock ends with the transaction, so the set is emptied on every normal path through a commit
+    from . import C35
+    C35.lockset_commit_rule(ctx, P='C20-LOCKSET')
     # ---------------------------------------------------------------- CRIT
     cc = repo.fn(CORE, 'Entity._construct_optimistic_criteria_')
     loops = [s for s in walk_no_nested(cc.node) if isinstance(s, ast.For)]
@@ -276,6 +285,7 @@ def run(ctx):
 
 
 MUTANTS = [
+    dict(id='C20-l1', file='pony/orm/core.py', fn='SessionCache.commit', old='            cache.for_update.clear()\n', new='            if cache.in_transaction: cache.for_update.clear()\n', expect='C20-LOCKSET.emptied-on-every-path-through-commit'),
     dict(id='C20-wb1', file='pony/orm/core.py', fn='Attribute.__get__', old="            wbits = value._wbits_\n", new="", expect='C20-OWNBITS.written-by-this-session'),
     dict(id='C20-excl1', file='pony/orm/dbapiprovider.py', fn='ArrayConverter.__init__', old="        converter.item_converter = converter.array_types[converter.py_type.item_type][1]", new="        converter.item_converter = item_converter = converter.array_types[converter.py_type.item_type][1]\n        converter.optimistic = item_converter.optimistic", expect='C20-EXCLUDED'),
     dict(id='C20-excl2', file='pony/orm/dbapiprovider.py', fn=None, old="class JsonConverter(Converter):\n", new="class JsonConverter(Converter):\n    optimistic = False\n", expect='C20-EXCLUDED'),
